@@ -103,10 +103,19 @@ def clone(prog, rr):
 def bd7(prog, rr):
     f = prog.method("VariableBoundVisitor", "visit_expr_bin")
     e = f.params[1]
+    from sa.ir import find_local
+    lfm = find_local(f.node, lambda v: isinstance(v, ast.Call) and call_name(v) == "field" and (e + ".lhs") in norm(v))
+    rfm = find_local(f.node, lambda v: isinstance(v, ast.Call) and call_name(v) == "field" and (e + ".rhs") in norm(v))
+    lb = find_local(f.node, lambda v: isinstance(v, ast.Subscript) and norm(v.value) == "self.bound_m" and norm(v.slice) in lfm)
+    rb = find_local(f.node, lambda v: isinstance(v, ast.Subscript) and norm(v.value) == "self.bound_m" and norm(v.slice) in rfm)
+    lnr = find_local(f.node, lambda v: isinstance(v, ast.Call) and call_name(v) == "is_nonrand" and (e + ".lhs") in norm(v))
+    rnr = find_local(f.node, lambda v: isinstance(v, ast.Call) and call_name(v) == "is_nonrand" and (e + ".rhs") in norm(v))
+    rr.require(len(lb) == 1 and len(rb) == 1 and lnr and rnr, "visit_expr_bin: bound / non-randomness locals not recognised")
+    LB, RB = lb[0], rb[0]
     want = {
-        "lhsvar_rhsvar_propagator": ("lhs_bounds", e + ".op", "rhs_bounds"),
-        "lhsvar_rhsnre_propagator": ("lhs_bounds", e + ".op", e + ".rhs"),
-        "lhsnre_rhsvar_propagator": (e + ".lhs", e + ".op", "rhs_bounds"),
+        "lhsvar_rhsvar_propagator": (LB, e + ".op", RB),
+        "lhsvar_rhsnre_propagator": (LB, e + ".op", e + ".rhs"),
+        "lhsnre_rhsvar_propagator": (e + ".lhs", e + ".op", RB),
     }
     seen = set()
     for n in walk_local(f.node):
@@ -119,7 +128,7 @@ def bd7(prog, rr):
                 rr.finding(f, n, "VariableBoundVisitor.visit_expr_bin", "BD7: %s is called with (%s); expected (%s): a translated operator or swapped operand changes which "
                            "bound is narrowed and by how much, and feasible boundary values fall out of the inferred range" % (nm, ", ".join(a), ", ".join(want[nm])))
     # guards: the expression side is non-random on the path that builds an expression bound
-    for nm, flag in (("lhsvar_rhsnre_propagator", "rhs_is_nonrand"), ("lhsnre_rhsvar_propagator", "lhs_is_nonrand")):
+    for nm, flag in (("lhsvar_rhsnre_propagator", rnr[0]), ("lhsnre_rhsvar_propagator", lnr[0])):
         for n in walk_local(f.node):
             if isinstance(n, ast.Call) and call_name(n) == nm:
                 g = [t for t, pos in _guards(f.node, n) if pos]
